@@ -765,6 +765,21 @@ func (env *SpecEnv) evalNamedCall(name string, x *ast.CallExpr) *Val {
 			return env.fail("%v", err)
 		}
 		return &Val{T: boolT, S: fmt.Sprintf("(= (tagof %s) %d)", v.S, env.eng.typeID(t))}
+	case "jsondec", "jsonerr":
+		// jsondec(data, T): the value json.Unmarshal stores into a *T for these bytes; jsonerr: its error result
+		v := arg(0)
+		if len(x.Args) < 2 {
+			return env.fail("%s arity", name)
+		}
+		t, err := env.eng.typeFromExpr(x.Args[1], env.pkg)
+		if err != nil {
+			return env.fail("%v", err)
+		}
+		dec, errf := env.eng.jsonFuncs(t)
+		if name == "jsondec" {
+			return &Val{T: t, S: fmt.Sprintf("(%s %s)", dec, v.S)}
+		}
+		return &Val{T: types.Universe.Lookup("error").Type(), S: fmt.Sprintf("(%s %s)", errf, v.S)}
 	case "unbox":
 		v := arg(0)
 		t, err := env.eng.typeFromExpr(x.Args[1], env.pkg)
